@@ -98,6 +98,7 @@ func main() {
 		{func() *Case { return g.gcCase("merge") }, 45},
 		{func() *Case { return g.gcCase("rawscan") }, 30},
 		{func() *Case { return g.gcCase("twopass") }, 30},
+		{func() *Case { return g.gcCase("fault") }, 40},
 		{func() *Case { return g.gcCase("commitsec") }, 25},
 		{func() *Case { return g.gcCase("stalepess") }, 45},
 		{func() *Case { return g.gcCase("conc") }, 30},
